@@ -36,6 +36,8 @@ class Raised:
 EXC_PARENTS = {
     'KeyError': 'LookupError', 'IndexError': 'LookupError', 'LookupError': 'Exception',
     'FileNotFoundError': 'OSError', 'FileExistsError': 'OSError', 'PermissionError': 'OSError',
+    'NotADirectoryError': 'OSError', 'IsADirectoryError': 'OSError', 'TimeoutError': 'OSError', 'ConnectionError': 'OSError',
+    'InterruptedError': 'OSError', 'BlockingIOError': 'OSError',
     'OSError': 'Exception', 'ValueError': 'Exception', 'TypeError': 'Exception',
     'AttributeError': 'Exception', 'AssertionError': 'Exception', 'RuntimeError': 'Exception',
     'StopIteration': 'Exception', 'JSONDecodeError': 'ValueError', 'SyntaxError': 'Exception',
@@ -57,6 +59,9 @@ def exc_isinstance(cls, handler):
             return True
         cls = EXC_PARENTS.get(cls)
     return False
+
+
+ASSERTS_MAY_BE_STRIPPED = True
 
 
 class ExcClass:
@@ -1219,7 +1224,13 @@ class Interp:
                 if b:
                     yield s2, OUT_NORMAL
                 else:
+                    # `assert` is not a check the program can rely on: under `python -O` / PYTHONOPTIMIZE the statement is
+                    # compiled away.  Both interpreters are covered: the failing test raises (default) AND is skipped (optimised).
+                    stripped = s2.copy() if ASSERTS_MAY_BE_STRIPPED else None
                     yield s2, ('raise', Exc('AssertionError'))
+                    if stripped is not None:
+                        stripped.emit('assert_stripped', line=getattr(node, 'lineno', None))
+                        yield stripped, OUT_NORMAL
 
     def ex_Assign(self, node, st):
         for s, v in self.ev(node.value, st):
